@@ -1,6 +1,7 @@
 #pragma once
 #include <string>
 #include <memory>
+#include <limits>
 
 #include "data.h"
 #include "type.h"
@@ -52,6 +53,15 @@ namespace sqf
             float value() const { return m_value; }
             void value(float f) { m_value = f; }
             operator float() { return m_value; }
+            /// float -> int that is defined for every float: NaN and values below the range of int
+            /// give INT_MIN, values above it INT_MAX (the plain cast is undefined there).
+            static int to_int(float f)
+            {
+                if (!(f >= -2147483648.0f)) { return std::numeric_limits<int>::min(); }
+                if (f >= 2147483648.0f) { return std::numeric_limits<int>::max(); }
+                return static_cast<int>(f);
+            }
+            explicit operator int() { return to_int(m_value); }
             static void set_decimals(int val) { s_decimals = val; }
         };
 
